@@ -39,7 +39,8 @@ def request_url(iface, scheme, server, host, root, path, query):
     from baize import asgi, wsgi
     port = DEFAULT[scheme] if server[1] in ("d", "none") else server[1]  # "none": ASGI allows a server address without a port (WSGI cannot say that)
     req = drivers.Req(path=path.encode("utf-8"), root=root.encode("utf-8"), query=query.encode("utf-8"),
-                      headers=[("Host", host)] if host is not None else [], scheme=scheme, server=(server[0], port))
+                      headers=([("Host", host)] if host is not None else []) + ([("X-Forwarded-Host", "forwarded.example:8443"), ("X-Forwarded-Proto", "ftp")] if (len(path) + len(query)) % 4 == 1 else []),
+                      scheme=scheme, server=(server[0], port))
     if iface == "wsgi":
         env = drivers.to_environ(req)
         if (len(path) + len(query) + len(root) + len(scheme)) % 2:
